@@ -36,7 +36,7 @@ pub open spec fn signed_with(sig: Signature, key: PrivateKey, md: MetadataWrappe
 }
 
 impl Metablock {
-//@extract src/models/metadata.rs impl:Metablock/fn:new props=C09,C05,C14
+//@extract src/models/metadata.rs impl:Metablock/fn:new props=C09,C05,C11,C14
 //@subst D15 /private_keys\.iter\(\)\.try_for_each\(\|key\| -> Result<\(\)> \{/ => for key in private_keys.iter() {
 //@subst D15 /Ok\(\(\)\)\s*\}\)\?;/ => }
 //@contract ret=r
@@ -115,7 +115,7 @@ pub assume_specification<T, F: FnMut(&T, &T) -> std::cmp::Ordering> [<[T]>::sort
 impl MetablockBuilder {
     pub closed spec fn sigs(self) -> Map<KeyId, Signature> { self.signatures@ }
     pub closed spec fn meta(self) -> MetadataWrapper { self.metadata }
-//@extract src/models/metadata.rs impl:MetablockBuilder/fn:sign props=C09,C05,C14
+//@extract src/models/metadata.rs impl:MetablockBuilder/fn:sign props=C09,C05,C11,C14
 //@mutself
 //@subst D15 /private_keys\.iter\(\)\.try_for_each\(\|key\| -> Result<\(\)> \{/ => for key in private_keys.iter() {
 //@subst D15 /Ok\(\(\)\)\s*\}\)\?;/ => }
